@@ -24,7 +24,8 @@ class plan_state:
         self.rev_blockers = {}
         self.blockers_refcnt = RefCountingSet()
         self.match_atom = self.state.find_atom_matches
-        self.vdb_filter = set()
+        # refcounted: a pkg can be removed/replaced more than once in a plan
+        self.vdb_filter = RefCountingSet()
         self.forced_restrictions = RefCountingSet()
 
     def add_blocker(self, choices, blocker, key=None):
